@@ -246,6 +246,7 @@ func runC11(c *Ctx) {
 
 	ruleGrammarGuards(c)
 	ruleOptsPointerFresh(c)
+	ruleXtextDecodesEveryPlus(c)
 
 	R.Rule("R-enum-whitelist", "E3 edge-feasibility", "BODY, RET, NOTIFY elements and the ORCPT address type are accepted only when equal to a declared constant", 6)
 	if f := c.A.Func("(*Conn).handleMail"); f != nil {
